@@ -110,6 +110,7 @@ void guardBegin(MPI_Comm comm, const std::vector<int>& mem) {
 }
 // returns "" or a description of the mismatch
 std::string guardEnd() {
+  if (!guardMode) return "";  // sequential communicator: no collectives, nothing to reconcile (same decision on every rank)
   int size, rank;
   PMPI_Comm_size(MPI_COMM_WORLD, &size);
   PMPI_Comm_rank(MPI_COMM_WORLD, &rank);
@@ -224,6 +225,33 @@ int MPI_Test(MPI_Request* req, int* flag, MPI_Status* st) {
   }
   return PMPI_Test(req, flag, st);
 }
+// the same steering for the other ways of asking "is it complete?" (a ready() written with them stays deterministic)
+int MPI_Request_get_status(MPI_Request req, int* flag, MPI_Status* st) {
+  if (ip::futMode) {
+    ++ip::testCalls;
+    if (req != MPI_REQUEST_NULL && ip::pendingBudget > 0) {
+      --ip::pendingBudget;
+      ++ip::forced;
+      *flag = 0;
+      return MPI_SUCCESS;
+    }
+  }
+  return PMPI_Request_get_status(req, flag, st);
+}
+int MPI_Testall(int count, MPI_Request reqs[], int* flag, MPI_Status sts[]) {
+  if (ip::futMode) {
+    ++ip::testCalls;
+    bool active = false;
+    for (int i = 0; i < count; ++i) active = active || reqs[i] != MPI_REQUEST_NULL;
+    if (active && ip::pendingBudget > 0) {
+      --ip::pendingBudget;
+      ++ip::forced;
+      *flag = 0;
+      return MPI_SUCCESS;
+    }
+  }
+  return PMPI_Testall(count, reqs, flag, sts);
+}
 int MPI_Ibarrier(MPI_Comm comm, MPI_Request* request) {
   int rc = PMPI_Ibarrier(comm, request);
   ip::capture(request);
@@ -301,6 +329,10 @@ static MPI_Comm commForColours(const std::vector<long>& col) {
   std::string key = listStr(col);
   auto it = splitCache().find(key);
   if (it != splitCache().end()) return it->second;
+  if (splitCache().size() > 150) {  // every rank sees the same sequence of cases, so this is collective as well
+    for (auto& kv : splitCache()) PMPI_Comm_free(&kv.second);
+    splitCache().clear();
+  }
   MPI_Comm c;
   PMPI_Comm_split(MPI_COMM_WORLD, (int)col[g_rank], g_rank, &c);
   splitCache()[key] = c;
@@ -869,7 +901,7 @@ static std::string gen(Rng& rng, long i, const Args& a) {
     return futLine(rng, k, P, steps, (i % 2) ? "erased" : "raw");
   }
   // 3. random
-  if (rng.coin(2, 5)) {
+  if (rng.coin(1, 2)) {
     std::string ctor = rng.pick(kCtors);
     int n = (int)rng.range(1, P >= 4 ? 5 : 6);
     std::vector<std::string> secs;
@@ -902,6 +934,10 @@ int main(int argc, char** argv) {
   MPI_Comm_size(MPI_COMM_WORLD, &g_size);
   PMPI_Comm_dup(MPI_COMM_WORLD, &ip::ctrl);
   PMPI_Comm_dup(MPI_COMM_WORLD, &g_futComm);
+  // a future destroyed with an active collective request makes ~MPIFuture call MPI_Cancel, which Open MPI rejects;
+  // let that return an error code instead of aborting so that the case's verdict (e.g. stale data) is still written
+  PMPI_Comm_set_errhandler(MPI_COMM_WORLD, MPI_ERRORS_RETURN);
+  PMPI_Comm_set_errhandler(g_futComm, MPI_ERRORS_RETURN);
   std::cout << std::unitbuf;
   // --random R : number of random cases after the enumerations;  --seqlen L : exhaustive call-sequence length
   Args a = parseArgs(argc, argv);
